@@ -439,9 +439,18 @@ func classifyFrom(prefix string, comps []string) (via, dd string) {
 	via, dd = "none", "none"
 	prev := "dir"
 
+	sawLink := false
+
 	for i, c := range comps {
 		if c == ".." {
-			if x := "after-" + prev; ddRank[x] > ddRank[dd] {
+			x := "after-" + prev
+			if sawLink {
+				// the path up to here went through a symbolic link: removing
+				// ".." lexically may name another object
+				x = "after-link"
+			}
+
+			if ddRank[x] > ddRank[dd] {
 				dd = x
 			}
 		}
@@ -459,6 +468,7 @@ func classifyFrom(prefix string, comps []string) (via, dd string) {
 			prev = "missing"
 		case fi.Mode()&fs.ModeSymlink != 0:
 			prev = "link"
+			sawLink = true
 
 			if x := linkKind(prefix); viaRank[x] > viaRank[via] {
 				via = x
